@@ -4,8 +4,7 @@ import re
 from fractions import Fraction as Fr
 
 from ..nf import Rat, Poly, C
-from ..source import Unsupported, AnchorError
-from ..xlate import Interp, Frame, Obj, ListV, Elem, Raised, _RaisedExc
+from ..xlate import Interp, Frame, Obj, Raised, _RaisedExc
 from .common import same, show
 from .rxnfix import get_public
 
@@ -192,6 +191,8 @@ def witnesses(tier):
     pts = [
         # CO2 inside the van der Waals loop (three real roots), critical point of CO2
         _Point(250, 30, 2, '0.364', '4.27e-5', '304.13', '73.77'),
+        # CO2 below Tc as a compressed liquid (one real root, which is the liquid) / critical point of water
+        _Point(250, 200, 2, '0.364', '4.27e-5', '647.1', '220.64'),
         # cold, dilute, strongly attracting, small molecules / helium-like critical point
         _Point(lo['T'], lo['P'], lo['n'], hi['a'], lo['b'], lo['Tc'], lo['Pc']),
         # hot, dense, weakly attracting, large molecules / the upper corner of the critical points
@@ -242,7 +243,7 @@ def check(run, repo):
     pts = witnesses(run.tier)
     for p in pts:
         body(_Suffixed(run, ' [at %s]' % p.label), repo, 'float', p, False)
-    run.floor('witness points of the box', len(pts), 5)
+    run.floor('witness points of the box', len(pts), 6)
     run.sample({'witness_points': [p.label + ' (%d real root%s)' % (p.nreal, 's' if p.nreal > 1 else '')
                                    for p in pts]})
     # all states at once: comparisons decided only when they hold on the whole box
@@ -271,7 +272,8 @@ class _Suffixed:
         return self._run.fail(rule, construct, key + self._suffix, why, *a, **k)
 
     def floor(self, name, count, minimum):
-        return self._run.floor(name + self._suffix, count, minimum)
+        # fails closed in every pass; the evidence keeps one entry (the last pass)
+        return self._run.floor(name, count, minimum)
 
 
 ARGN = {'get_V': ('T', 'P', 'n'), 'get_P': ('T', 'V', 'n'), 'get_T': ('V', 'P', 'n'), 'get_n': ('V', 'P', 'T')}
@@ -285,6 +287,14 @@ def _user(I, module, text, **names):
         return Frame(I, module, dict(names), None, None).ev(ast.parse(text, mode='eval').body)
     except _RaisedExc as e:
         return e.raised
+
+
+def _never_zero(box, r):
+    """r is zero nowhere on the box: a non-zero monomial in strictly positive quantities (state, parameters, physical
+    constants, unit factors of any unit), or of one sign by interval arithmetic"""
+    if r.is_monomial() and not r.iszero() and all(a_ in box.iv or a_.startswith('U<') for a_ in r.atoms()):
+        return True
+    return box.sign(r) in (1, -1)
 
 
 def _at_zero(r, atom):
@@ -317,13 +327,6 @@ def body(run, repo, kind, order, repeat):
     D = I.D
     ints = kind in ('int', 'np.int64')
     box = order if isinstance(order, _Box) else _Box(ints)
-    if kind.startswith('np.') and not hasattr(I, 'np_syms'):
-        # an interpreter without a notion of numpy scalar types: the pass is not run, and said so
-        text = 'state given as numpy scalars (np.int64 / np.float64): the interpreter does not distinguish them ' \
-               'from Python numbers, the pass was not run'
-        if text not in run.undecided:
-            run.undecided.append(text)
-        return
     for q in ('get_V', 'get_P', 'get_T', 'get_n'):
         run.fn('%s.IdealGasEOS.%s' % (EOS, q))
     for q in ('get_Vm', 'get_V', 'get_P', 'get_T', 'get_n', 'get_Pc', 'get_Tc', 'get_Vc', 'from_critical'):
@@ -455,7 +458,7 @@ def van_der_waals(run, repo, I, box, ci, vci, ig, vw, state, a, b, RJ, toPa, fir
         # same roots: the polynomial is the reference times a factor that is zero nowhere on the box - the ratio of
         # the leading coefficients, whatever it is (a number, 1/P for the monic form, a unit factor); np.roots is
         # scale invariant
-        lead_ok = box.sign(co[0]) in (1, -1)
+        lead_ok = _never_zero(box, co[0])
         okc = lead_ok and (poly * P_SI - want * co[0]).iszero()
         run.check(okc, 'REF.cubic', 'vanDerWaalsEOS.get_Vm', 'coefficients gas=%s' % gname,
                   'cubic is %s but Vm^2[(P+a/Vm^2)(Vm-b)-RT] = %s%s'
@@ -600,11 +603,38 @@ MUTANTS = [
 ]
 # armed when the interpreter models what they need (/tmp/gaps2/REQ2_C20.md): today each is an analysis error or silent
 PENDING = [
+    {'name': 'liquid root refused when the cubic has a complex pair (A2)', 'expect': ('ORDER.root', 'get_Vm'),
+     'needs': 'len() of a vector named by the vector (REQ2 item 2)',
+     'edits': [(E, '        if gas_phase:\n            return np.max(real_Vm)',
+                "        if not gas_phase and len(real_Vm) < len(Vm):\n"
+                "            raise ValueError('No liquid phase volume')\n"
+                '        if gas_phase:\n            return np.max(real_Vm)')]},
+    {'name': 'positivity decorator that also sees the flag (A1)', 'expect': ('ORDER.root', 'get_Vm'),
+     'needs': 'user-defined decorators applied, np.less_equal (REQ2 item 1)',
+     'edits': [(E, 'class IdealGasEOS(_pmuttBase):',
+                'def _check_state(fn):\n    def wrapper(self, *args, **kwargs):\n'
+                '        for val in list(args) + list(kwargs.values()):\n'
+                '            if np.any(np.less_equal(val, 0.)):\n'
+                "                raise ValueError('T, P, V and n must be positive')\n"
+                '        return fn(self, *args, **kwargs)\n    return wrapper\n\n\n'
+                'class IdealGasEOS(_pmuttBase):'),
+               (E, "    def get_Vm(self, T=c.T0('K'), P=c.P0('bar'), gas_phase=True):",
+                "    @_check_state\n    def get_Vm(self, T=c.T0('K'), P=c.P0('bar'), gas_phase=True):")]},
     {'name': 'get_Vm accepts only type float: what get_V returns is np.float64', 'expect': ('ORDER.root', 'get_Vm'),
+     'needs': 'type(x) is float / int answered from int_syms and np_syms (REQ2 item 3)',
      'edits': [(E, "        P_SI = P * c.convert_unit(initial='bar', final='Pa')\n        Vm = np.roots([",
                 "        if type(T) is not float and type(T) is not int:\n"
                 "            raise TypeError('T should be a number')\n"
                 "        P_SI = P * c.convert_unit(initial='bar', final='Pa')\n        Vm = np.roots([")]},
+]
+PENDING_EQUIV = [
+    {'name': 'real roots collected with an explicit loop (B1)', 'needs': 'REQ2 item 4',
+     'edits': [(E, '        real_Vm = np.real([Vm_i for Vm_i in Vm if np.isreal(Vm_i)])\n',
+                '        real_Vm = []\n        for Vm_i in Vm:\n            if np.isreal(Vm_i):\n'
+                '                real_Vm.append(np.real(Vm_i))\n')]},
+    {'name': 'flag compared with == True (1 == True, np.True_ == True)', 'needs': 'REQ2 item 5',
+     'edits': [(E, '        if gas_phase:\n            return np.max(real_Vm)',
+                '        if gas_phase == True:\n            return np.max(real_Vm)')]},
 ]
 EQUIV = [
     {'name': 'ideal get_P rearranged', 'edits': [(E, "return n * c.R('m3 bar/mol/K') * T / V", "return T / V * c.R('m3 bar/mol/K') * n")]},
